@@ -706,3 +706,154 @@ pub fn any_llr() -> impl Strategy<Value = f64> {
         1 => -40.0f64..40.0,
     ]
 }
+
+// ---------------------------------------------------------------------------
+// Large-graph helpers (code tables)
+
+/// adjacency lists of the Tanner graph: rows 0..r, columns r..r+c
+pub fn adjacency(h: &SparseMatrix) -> Vec<Vec<u32>> {
+    let (r, c) = (h.num_rows(), h.num_cols());
+    let mut adj: Vec<Vec<u32>> = vec![Vec::new(); r + c];
+    for j in 0..c {
+        for &i in h.iter_col(j) {
+            adj[i].push((r + j) as u32);
+            adj[r + j].push(i as u32);
+        }
+    }
+    adj
+}
+
+/// Exact girth if it is <= maxlen, else None (BFS from every node, depth maxlen/2;
+/// every non-tree edge met gives the candidate d[u]+d[v]+1, minimum over all roots).
+pub fn bounded_girth(adj: &[Vec<u32>], maxlen: usize) -> Option<usize> {
+    let n = adj.len();
+    let mut stamp = vec![u32::MAX; n];
+    let mut dist = vec![0u32; n];
+    let mut parent = vec![u32::MAX; n];
+    let mut best: Option<usize> = None;
+    let depth = (maxlen / 2) as u32;
+    let mut queue: Vec<u32> = Vec::new();
+    for root in 0..n {
+        let tag = root as u32;
+        queue.clear();
+        queue.push(root as u32);
+        stamp[root] = tag;
+        dist[root] = 0;
+        parent[root] = u32::MAX;
+        let mut qi = 0;
+        while qi < queue.len() {
+            let u = queue[qi] as usize;
+            qi += 1;
+            if dist[u] >= depth {
+                continue;
+            }
+            for &v in &adj[u] {
+                let v = v as usize;
+                if stamp[v] != tag {
+                    stamp[v] = tag;
+                    dist[v] = dist[u] + 1;
+                    parent[v] = u as u32;
+                    queue.push(v as u32);
+                } else if parent[u] != v as u32 {
+                    let cand = (dist[u] + dist[v] + 1) as usize;
+                    if cand <= maxlen && best.is_none_or(|b| cand < b) {
+                        best = Some(cand);
+                    }
+                }
+            }
+        }
+    }
+    best
+}
+
+/// true if two rows share two columns (a cycle of length 4)
+pub fn has_four_cycle(h: &SparseMatrix) -> Option<(usize, usize, usize)> {
+    let mut pairs: Vec<(u64, u32)> = Vec::new();
+    for r in 0..h.num_rows() {
+        let mut cols: Vec<usize> = h.iter_row(r).copied().collect();
+        cols.sort_unstable();
+        for a in 0..cols.len() {
+            for b in (a + 1)..cols.len() {
+                pairs.push((((cols[a] as u64) << 32) | cols[b] as u64, r as u32));
+            }
+        }
+    }
+    pairs.sort_unstable();
+    for w in pairs.windows(2) {
+        if w[0].0 == w[1].0 {
+            return Some(((w[0].0 >> 32) as usize, (w[0].0 & 0xffff_ffff) as usize, w[0].1 as usize));
+        }
+    }
+    None
+}
+
+pub fn sorted_columns(h: &SparseMatrix) -> Vec<Vec<usize>> {
+    (0..h.num_cols())
+        .map(|c| {
+            let mut v: Vec<usize> = h.iter_col(c).copied().collect();
+            v.sort_unstable();
+            v
+        })
+        .collect()
+}
+
+pub fn sorted_rows(h: &SparseMatrix) -> Vec<Vec<usize>> {
+    (0..h.num_rows())
+        .map(|r| {
+            let mut v: Vec<usize> = h.iter_row(r).copied().collect();
+            v.sort_unstable();
+            v
+        })
+        .collect()
+}
+
+/// canonical digest from sorted column lists
+pub fn columns_digest(rows: usize, cols: &[Vec<usize>]) -> String {
+    let mut edges: Vec<(usize, usize)> = Vec::new();
+    for (c, l) in cols.iter().enumerate() {
+        for &r in l {
+            edges.push((r, c));
+        }
+    }
+    edges.sort_unstable();
+    let mut s = String::with_capacity(edges.len() * 12 + 32);
+    s.push_str(&format!("{rows} {}\n", cols.len()));
+    for (r, c) in edges {
+        s.push_str(&format!("{r} {c}\n"));
+    }
+    hex(&sha256(s.as_bytes()))
+}
+
+pub fn syndrome_rows_ok(rows: &[Vec<usize>], word: &[u8]) -> bool {
+    rows.iter().all(|r| r.iter().fold(0u8, |a, &c| a ^ (word[c] & 1)) == 0)
+}
+
+/// golden directory
+pub fn golden_dir() -> std::path::PathBuf {
+    std::path::PathBuf::from(std::env::var("VERIF_DIR").unwrap_or_else(|_| "/verif".to_string())).join("golden")
+}
+
+pub fn read_table(path: &std::path::Path) -> Result<Vec<Vec<usize>>, String> {
+    let text = std::fs::read_to_string(path).map_err(|e| format!("cannot read {}: {e}", path.display()))?;
+    let mut out = Vec::new();
+    for line in text.lines() {
+        if line.starts_with('#') || line.trim().is_empty() {
+            continue;
+        }
+        out.push(line.split_whitespace().map(|t| t.parse::<usize>().map_err(|e| format!("{}: {e}", path.display()))).collect::<Result<Vec<_>, _>>()?);
+    }
+    Ok(out)
+}
+
+pub fn read_digests(path: &std::path::Path) -> std::collections::BTreeMap<String, String> {
+    let mut m = std::collections::BTreeMap::new();
+    if let Ok(text) = std::fs::read_to_string(path) {
+        for line in text.lines() {
+            let mut it = line.split_whitespace();
+            if let (Some(a), Some(b)) = (it.next(), it.next()) {
+                m.insert(a.to_string(), b.to_string());
+            }
+        }
+    }
+    m
+}
